@@ -68,6 +68,7 @@ TRUSTED_EXTRA = ['Cython/gcc/libgomp compile the nogil prange bodies as written 
 
 _IDENT = r'[A-Za-z_]\w*'
 _WIDE = ('long', 'Py_ssize_t', 'ssize_t', 'size_t', 'double', 'long long', '')
+_WIDE_INT = ('long', 'Py_ssize_t', 'ssize_t', 'size_t', 'long long')
 
 
 def _strip_comment(line):
@@ -197,6 +198,19 @@ def _flat(s):
     return s
 
 
+def _module_directives(src):
+    """`# cython: a=b, c=d` directive comments (they apply to every function of the file)"""
+    out = []
+    for ln in src.split('\n'):
+        m = re.match(r'^\s*#\s*cython\s*:\s*(.*)$', ln)
+        if m:
+            out += [d.strip().replace(' ', '') for d in m.group(1).split(',') if d.strip()]
+        m = re.match(r'^\s*#\s*distutils\s*:\s*(.*)$', ln)
+        if m:
+            out.append('distutils:' + m.group(1).strip().replace(' ', ''))
+    return sorted(out)
+
+
 def _function_block(src, name):
     """(decorators, signature text, body text) of a top-level def"""
     m = re.search(r'(?m)^((?:@[^\n]*\n)*)def\s+%s\s*\(' % re.escape(name), src)
@@ -233,6 +247,8 @@ def normalise_kernel(src, name):
             return ['unrecognised: no function %s' % name]
         for d in sorted(re.sub(r'\s+', '', d).replace('cython.', '') for d in decos):
             res.append('dec:' + d)
+        for d in _module_directives(src):
+            res.append('dec:module:' + d)
         params = [p.strip() for p in _split_top(re.sub(r'\s+', ' ', sig), ',') if p.strip()]
         roles = ['X', 'Y', 'OUT']
         env, types = {}, {}
@@ -250,6 +266,7 @@ def normalise_kernel(src, name):
             res.append('arg:%s:%s:%s%s' % (role, et, nd[0] if nd else '?', (':' + ','.join(other)) if other else ''))
             env[m.group(2)] = role
         guards, stack, pending_zero, loopvars = [], [], set(), set()
+        seen_loop = [False]
 
         def close_to(indent):
             while stack and stack[-1]['indent'] >= indent:
@@ -258,15 +275,23 @@ def normalise_kernel(src, name):
                     res.append('unrecognised: while loop over %s without final increment' % blk['var'])
 
         def temp(nm, rhs, typ):
+            # only size / bound scalars (len(A), A.shape[k], A.strides[k]) are inlined bare; a temporary that
+            # holds an array element or arithmetic keeps its declared type: `<type>(...)` (a conversion)
             r = _subst(rhs, env)
-            plain = re.match(r'^[\w.]+(\([\w., ]*\))?(\[[^\]]*\])?$', r) is not None
+            size = re.match(r'^(len\(\w+\)|\w+\.(shape|strides)\[\d+\])$', r) is not None
             t = (typ or '').strip()
-            if plain and t in _WIDE:
+            if size and t in _WIDE:
                 env[nm] = r
             elif t:
                 env[nm] = '<%s>(%s)' % (_subst(t, env).replace(' ', ''), r)
             else:
                 env[nm] = '(%s)' % r
+
+        def idx_tag(nm, d):
+            # declared type of a loop variable: anything other than a long-wide integer is visible
+            t = types.get(nm, 'untyped').strip()
+            if t not in _WIDE_INT:
+                res.append('idx:L%d:%s' % (d, t.replace(' ', '')))
 
         lines = _logical_lines(body)
         prev_indent_else = {}
@@ -285,7 +310,12 @@ def normalise_kernel(src, name):
                     else m.group(1)
                 for g in _split_top(expr, ' and '):
                     g = _subst(g.strip(), env)
-                    guards.append((cond + '=>' + g) if cond else g)
+                    guards.append(('@post:' if seen_loop[0] else '@pre:') + ((cond + '=>' + g) if cond else g))
+                continue
+            m = re.match(r'^with (cython\..*):$', st)
+            if m:
+                res.append('dec:with:' + m.group(1).replace(' ', '').replace('cython.', ''))
+                stack.append({'indent': indent, 'kind': 'ctx'})
                 continue
             if st == 'with nogil:':
                 stack.append({'indent': indent, 'kind': 'nogil'})
@@ -314,6 +344,8 @@ def normalise_kernel(src, name):
                 elif len(args) != 1:
                     kind = 'range/%d' % len(args)
                 res.append('loop:%d|%s|%s' % (depth, kind, _subst(args[0], env)))
+                idx_tag(m.group(1), depth)
+                seen_loop[0] = True
                 env[m.group(1)] = 'L%d' % depth
                 loopvars.add(m.group(1))
                 pending_zero.discard(m.group(1))
@@ -323,6 +355,8 @@ def normalise_kernel(src, name):
             if m and m.group(1) in pending_zero:
                 pending_zero.discard(m.group(1))
                 res.append('loop:%d|range|%s' % (depth, _subst(m.group(2), env)))
+                idx_tag(m.group(1), depth)
+                seen_loop[0] = True
                 env[m.group(1)] = 'L%d' % depth
                 loopvars.add(m.group(1))
                 stack.append({'indent': indent, 'kind': 'while', 'var': m.group(1), 'incremented': False})
@@ -385,10 +419,10 @@ def normalise_kernel(src, name):
         close_to(0)
         for z in sorted(pending_zero - loopvars):
             res.append('unrecognised: %s = 0 (never used as a counter)' % z)
-        res += ['guard:' + g for g in sorted(set(guards))]
+        res += ['guard' + g for g in sorted(set(guards))]
     except Exception as e:  # noqa  (never raise: the obligation then fails readably)
         res.append('unrecognised: translator error %s: %s' % (type(e).__name__, str(e)[:80]))
-    order = {'dec': 0, 'arg': 1, 'guard': 2, 'loop': 3, 'write': 3, 'ret': 4}
+    order = {'dec': 0, 'arg': 1, 'guard@pre': 2, 'guard@post': 2, 'loop': 3, 'write': 3, 'idx': 3, 'ret': 4}
     return sorted(res, key=lambda s: order.get(s.split(':', 1)[0], 5)) if res else res
 
 
@@ -500,7 +534,15 @@ def trace_wrapper(src, name, kernels):
                 if isinstance(st, ast.Pass):
                     continue
                 if isinstance(st, ast.Expr) and isinstance(st.value, ast.Call):
-                    call_value(st.value, env, path, depth)
+                    fnm = st.value.func.id if isinstance(st.value.func, ast.Name) else None
+                    tgt = env.get(fnm, fnm) if fnm else None
+                    if (tgt in kernels or tgt in funcs) and not st.value.keywords:
+                        call_value(st.value, env, path, depth)
+                    else:       # any other call made for its effect (y.sort(), np.abs(X, out=X), ...)
+                        events.append('effect|%s|%s' % (path, _expr(st.value, env)))
+                    continue
+                if isinstance(st, ast.Expr):
+                    events.append('effect|%s|%s' % (path, _expr(st.value, env)))
                     continue
                 if isinstance(st, ast.Raise) and st.exc is not None:
                     nm, raw = exc_name(st.exc)
